@@ -44,7 +44,7 @@ def c05(tier, seed):
     return check('C05', tier, seed, runs, keyfilter=pref('c05:'), assumptions=ASSUME_COMMON)
 
 def c06(tier, seed):
-    return check('C06', tier, seed, [Run('e2_storage', 'asan', [])], keyfilter=pref('c06:'), assumptions=ASSUME_COMMON + [
+    return check('C06', tier, seed, [Run('e2_storage', 'asan', []), Run('e2_storage', 'dbg', [], label='e2_storage[dbg] (library assertions on)')], keyfilter=pref('c06:'), assumptions=ASSUME_COMMON + [
         '2^256 buffers are explored field-wise around valid images: every byte x 256 values, the two header bytes (65536) with stale and with recomputed check values, footer variants, secret top bits x all check values, all 2-bit (and, thorough, 3-bit) flips'])
 
 def c07(tier, seed):
